@@ -1216,6 +1216,12 @@ func (e *Engine) makeSlice(s *State, f *Frame, x *ssa.MakeSlice, set func(Value)
 		set(&SliceV{Obj: id, Off: CI(0), Len: ln, Cap: cp})
 		return forks
 	}
+	if ln.IsConst() && ln.Val == 0 {
+		// zero length: the capacity is only a hint for append (which always reallocates in this model)
+		id := s.newObj(&Obj{Kind: kElems, ET: el})
+		set(&SliceV{Obj: id, Off: CI(0), Len: CI(0), Cap: CI(0)})
+		return forks
+	}
 	if !cp.IsConst() {
 		if !ln.IsConst() || ln.Val != 0 {
 			panic(engineUnsupported("make of non-byte slice with symbolic length at " + site))
